@@ -114,7 +114,7 @@ def gen_block(rng, kind, env, depth, mode, budget, peerdown):
         return gen_block(rng, kind, env, d, m, rng.below(3), peerdown)
     if budget <= 0:
         if mode == "ret":
-            if depth > 0 and rng.chance(40):
+            if depth > 0 and rng.chance(60):
                 return ["if"] + cond() + sub("ret") + sub("ret") + ["end"]
             return ["ret", rng.choice(["A", "R"])]
         if mode == "any":
@@ -175,7 +175,7 @@ def gen_input(rng, kind):
 
 
 def gen_c10(rng, tier):
-    n = 600 if tier == "quick" else 12000
+    n = 1800 if tier == "quick" else 30000
     for i in range(n):
         kind = ["rib", "bgp", "bmp"][i % 3]
         prog = gen_prog(rng, kind, peerdown=8)
@@ -190,6 +190,8 @@ def nontrivial_c10(case, out):
 
 def classify_c10(case, out):
     ks = [case.split()[1]]
+    full = case
+    case = case.split(";")[0] + " "
     toks = out.split()
     if any(t.startswith("A[") for t in toks) and any(t.startswith("R[") for t in toks):
         ks.append("both-verdicts")
@@ -202,7 +204,7 @@ def classify_c10(case, out):
     for w in ("asc", "aso", "com", "att", "pfx", "ibgp", "pasn", "nann", "nwd", " rm ", " pd ", "peerdown"):
         if " " + w.strip() + " " in case:
             ks.append("uses-" + w.strip())
-    if " 1 s" in case and case.startswith("F bmp"):
+    if " 1 s" in full and case.startswith("F bmp"):
         ks.append("legacy-as-input")
     return ks
 
@@ -226,7 +228,7 @@ def corpus_c10():
 
 
 def gen_c10rib(rng, tier):
-    n = 400 if tier == "quick" else 8000
+    n = 1000 if tier == "quick" else 20000
     for _ in range(n):
         prog = "none" if rng.chance(8) else gen_prog(rng, "rib", peerdown=6)
         ops = ["F rib %s" % prog]
@@ -285,9 +287,12 @@ def corpus_c10rib():
 
 
 def gen_c10bmp(rng, tier):
-    n = 400 if tier == "quick" else 8000
+    n = 1000 if tier == "quick" else 20000
     for _ in range(n):
         prog = "none" if rng.chance(8) else gen_prog(rng, "bmp", peerdown=12)
+        if prog != "none" and rng.chance(65):
+            # session messages pass, so that the session gets far enough for the filter to matter on routes
+            prog = "if not or rm pd ret A end " + prog
         ops = ["F bmp %s" % prog, "I"] if rng.chance(92) else ["F bmp %s" % prog]
         tag = 1
         pool = [rng.choice(PFXS) for _ in range(3)]
